@@ -32,7 +32,7 @@ pub fn mk(entries: &[Entry], wc: u8, wt: u8, bias: i32, scheme: u8, tags: bool) 
     Built { spec, desc: desc(entries, wc, wt, bias, scheme, tags) }
 }
 
-/// init: 0 = fresh (all unknown), 1 = all word boundaries, 2 = pattern N,U,W,N,U,W..., 3 = already predicted once, 4 = predicted and tagged by an unrelated predictor before
+/// init: 0 = fresh (all unknown), 1 = all word boundaries, 2 = pattern N,U,W,N,U,W..., 3 = already predicted once, 4 = predicted and tagged by an unrelated predictor before, 5 = predicted by the same predictor and relabelled through boundaries_mut()
 fn run_one(pred: &Predictor, text: &str, init: u8) -> Result<(Vec<i32>, Vec<u8>, usize), String> {
     guard(|| {
         let mut s = Sentence::from_raw(text).expect("from_raw on a NUL-free non-empty text");
@@ -41,6 +41,12 @@ fn run_one(pred: &Predictor, text: &str, init: u8) -> Result<(Vec<i32>, Vec<u8>,
             2 => s.boundaries_mut().iter_mut().enumerate().for_each(|(i, b)| *b = label((i % 3) as u8)),
             // the sentence was already predicted once (scores, labels and scratch state present)
             3 => pred.predict(&mut s),
+            // predicted once by the SAME predictor, then every boundary overwritten through boundaries_mut()
+            // (what a filter or a user does): the second prediction must overwrite them again
+            5 => {
+                pred.predict(&mut s);
+                s.boundaries_mut().iter_mut().enumerate().for_each(|(i, b)| *b = label(((i + 2) % 3) as u8));
+            }
             // the sentence was predicted and tagged by an unrelated tag-predicting predictor before
             4 => {
                 crate::c06::other_predictor(text.len()).predict(&mut s);
@@ -109,7 +115,7 @@ pub fn check_model(chk: &Check, b: &Built, texts: &[Vec<char>], both_flags: bool
             }
         };
         for text in texts {
-            let inits: &[u8] = if text.len() >= 2 && text.len() <= 4 { &[0, 1, 2, 3, 4] } else { &[0] };
+            let inits: &[u8] = if text.len() >= 2 && text.len() <= 4 { &[0, 1, 2, 3, 4, 5] } else { &[0] };
             for &init in inits {
                 let (nt, v) = check_case(&b.spec, &pred, text, init);
                 chk.eval(1);
